@@ -76,8 +76,8 @@ func humanizeFloat(v float64, decimals int) string {
 	var buf [64]byte // Operations on the stack
 	s := strconv.AppendFloat(buf[:0], v, 'f', decimals, 64)
 
-	if v > -1000.0 && v < 1000.0 {
-		// performance escape hatch when no commas
+	if v > -999.0 && v < 999.0 {
+		// performance escape hatch when no commas (rounding can turn 999.x into 1,000)
 		return string(s)
 	}
 
